@@ -112,8 +112,15 @@ def params(tier):
 def run(tier):
     res = Result(PID)
     st = explore.explore(C11("line"), params(tier), 2)
+    ix = None
+    if tier != "quick":
+        racy = [dict(p, bound=2.015) for p in params(tier) if p.get("bound") == 2][:3]
+        ix = explore.extra(st, explore.hybrid(C11("instr")), racy, 2.015, 900,
+                           "the cancel-vs-due-timer races at instruction granularity, two deviations of which at most one inside a source line")
     fill(res, st, 2, "line", "; 3 sources over signals A, A, B x {cancel by id: same object / equal copy; cancel by name: "
          "Event(number) / Event('name') / run-time built name / dumps+loads} and cancel racing a timer that is due")
+    if ix:
+        res.coverage["instruction_extra"] = ix
     res.assumptions = ["'after the cancelling call returns' = scheduler step index of the return vs step index of each queue append",
                        "sources that ended on their own may stay in the tracked list (not constrained)"]
     return res
